@@ -570,8 +570,13 @@ class KeychainSqlite3(Keychain):
         name = Name.to_bytes(id_name)
         if name not in self:
             self.conn.execute('INSERT INTO identities (identity) VALUES (?)', (name,))
-            self.conn.commit()
-            self.new_key(name)
+            # The Identity is committed together with its Key and Certificate by new_key(), so that a failure
+            # in between does not leave behind an Identity without the promised default Key
+            try:
+                self.new_key(name)
+            except Exception:
+                self.conn.rollback()
+                raise
         if not self.has_default_identity():
             self.set_default_identity(name)
         return self[name]
